@@ -10,5 +10,10 @@ CONSTANTS
   Video <- Vid3
   NoBtrt <- T3
   RecordHist = FALSE
-INVARIANTS TypeOK
+  FixBufResize = TRUE
+  FixCtrResize = TRUE
+  FixDropBound = TRUE
+  FixDeriveGuards = TRUE
+  FixLateTrack = TRUE
+INVARIANTS NoPanic Listed BoundedBuf TypeOK
 PROPERTIES NewestMono
